@@ -403,6 +403,33 @@ class C14(F.Check):
                        "q/unblock_int_div(q) is usable as a raw number exactly when the model's units cancel", key)
                 closed("uunit_%d" % j, "return are_units_quantity_equivalent(typename AuvUnitOf<decltype(%s)>::type{}, %s{});" % (eu, mu.cxx()),
                        True, "unit of q/unblock_int_div(q)", key)
+        # units that cancel in DIMENSION but leave an irrational scale factor (a power of pi, a root) are not the unitless unit: the result
+        # stays a Quantity and does not convert implicitly to its rep; an exactly cancelling irrational factor does collapse. Hand-written.
+        IRR = [
+            ("rev_per_2rad", "revolutions(1.0) / (radians * mag<2>())(1.0)", False, "leftover factor pi"),
+            ("rev_times_inv_2rad", "revolutions(6) * pow<-1>(radians * mag<2>())(2)", False, "leftover factor pi, integral reps"),
+            ("deg_per_rad", "degrees(1.0) / radians(1.0)", False, "leftover factor pi/180"),
+            ("pirad_per_rad", "(radians * Magnitude<Pi>{})(1.0) / radians(1.0)", False, "leftover factor pi"),
+            ("rad_per_pirad", "radians(1.0) / (radians * Magnitude<Pi>{})(1.0)", False, "leftover factor 1/pi"),
+            ("pi2", "(unos * Magnitude<Pi>{})(1.0) * (unos * Magnitude<Pi>{})(1.0)", False, "leftover factor pi^2"),
+            ("pim_per_pim", "(meters * Magnitude<Pi>{})(1.0) / (meters * Magnitude<Pi>{})(1.0)", True, "pi cancels exactly"),
+            ("pim_times_inv", "(meters * Magnitude<Pi>{})(1.0) * pow<-1>(meters * Magnitude<Pi>{})(1.0)", True, "pi cancels exactly"),
+            ("sqrt_dam_per_sqrt_m", "sqrt(deka(meters)(40.0)) / sqrt(meters(10.0))", False, "leftover factor sqrt(10)"),
+            ("sqrt_hm_per_sqrt_m", "sqrt(hecto(meters)(4.0)) / sqrt(meters(1.0))", False, "leftover factor 10 (rational, not 1)"),
+            ("sqrt_m_per_sqrt_m", "sqrt(meters(4.0)) / sqrt(meters(1.0))", True, "cancels exactly"),
+            ("cbrt_pct_times_uno", "cbrt(percent(8.0)) * unos(1.0)", False, "leftover factor 100^(-1/3)"),
+            ("cbrt_m3_per_m", "cbrt(cubed(meters)(8.0)) / meters(1.0)", True, "cancels exactly"),
+            ("root2_ft_in", "sqrt(feet(1.0) * inches(1.0)) / inches(1.0)", False, "leftover factor sqrt(12)"),
+        ]
+        for nm, e, collapse, why in IRR:
+            key = {"expression": e, "why": why}
+            closed("irr_arith_" + nm, "return std::is_arithmetic<decltype(%s)>::value;" % e, collapse,
+                   "result is a raw number exactly when the units cancel to the unitless unit (magnitude exactly 1), irrational leftovers included", key)
+        for nm, ut, conv in (("uno", "Unos", True), ("pi_uno", "decltype(Unos{} * Magnitude<Pi>{})", False),
+                             ("sqrt10_uno", "decltype(root<2>(Unos{} * mag<10>()))", False), ("pct", "Percent", False),
+                             ("inv_pi_uno", "decltype(Unos{} / Magnitude<Pi>{})", False), ("rad", "Radians", False)):
+            closed("irr_conv_" + nm, "return std::is_convertible<Quantity<%s, double>, double>::value;" % ut, conv,
+                   "a Quantity converts implicitly to its rep exactly when its unit is the unitless unit", {"unit": ut})
         # rep of the result = rep of the raw operator
         for r1, r2 in self.rep_pairs:
             rp = "%s_%s" % (sfx(r1), sfx(r2))
